@@ -95,7 +95,7 @@ class Renderer:
                 out.append(Stmt('contains', 'block', indent=ind))
                 for j, (nm, tgt) in enumerate(td['binds']):
                     attr = ', pass' if (self.on('typeattr') and j % 2) else ''
-                    sep = ' ' if (self.on('typeattr') and not attr and j % 3 == 2) else ' :: '
+                    sep = ' ' if (self.on('typeattr') and not attr and nm == tgt) else ' :: '   # (`::` is mandatory with `=>`)
                     txt = f'procedure{attr}{sep}{nm}' + ('' if nm == tgt else f' => {tgt}')
                     out.append(Stmt(txt, 'bind', indent=ind + 2))
                 for g in td['generics']:
